@@ -160,9 +160,11 @@ def main(argv=None):
         "wall_s": round(time.time() - t0, 3),
         "violations": len(new_viol),
     }
-    os.makedirs(EVID_DIR, exist_ok=True)
-    with open(os.path.join(EVID_DIR, f"{prop}.json"), "w") as f:
-        json.dump(ev, f, indent=1, sort_keys=False)
+    no_ev = bool(os.environ.get("VERIF_NO_EVIDENCE"))   # used by tools/run_seeds.py on deliberately broken trees
+    if not no_ev:
+        os.makedirs(EVID_DIR, exist_ok=True)
+        with open(os.path.join(EVID_DIR, f"{prop}.json"), "w") as f:
+            json.dump(ev, f, indent=1, sort_keys=False)
 
     print(f"{prop} [{tier}]: {len(ctx.obligations)} rule instances over {len(model.consulted)} files, "
           f"{len(new_viol)} new violation(s), {len(known_hit)} known finding(s), {len(errors)} analysis error(s), "
@@ -180,7 +182,7 @@ def main(argv=None):
                 print(f"  SELFTEST-MISS {m}")
     rc = 0
     for n, v in enumerate(new_viol):
-        path = write_replay(prop, n, v, model)
+        path = write_replay(prop, n, v, model) if not no_ev else "(not written)"
         print(f"  {v['where']}: [{v['rule']}] {v['construct']}: {v['message']}")
         print(f"VIOLATION property={prop} replay={path}")
         rc = 1
